@@ -398,7 +398,7 @@ impl Property for C06 {
         ]
     }
     fn random_cases(&self, tier: Tier) -> u64 {
-        tier.pick(640, 2_000)
+        tier.pick(1_600, 2_500)
     }
     fn max_shrink_iters(&self) -> u32 {
         40
